@@ -142,7 +142,7 @@ impl Property for C07 {
     fn run(&self, t: &mut Tape, ctx: &mut CaseCtx) -> Verdict {
         let (prog, _info) = crate::props::c01::gen_case(t, 18, true, true);
         let (mut base, _) = render(&prog);
-        let glued = gen_glued(t);
+        let glued = if crate::engine::gen_version() >= 2 { gen_glued(t) } else { None };
         if let Some(g) = &glued {
             base.push_str(&g.render(t, &Variant::default()));
             ctx.label("glued-suffix-rules");
